@@ -33,7 +33,7 @@ def make_copy(m):
             shutil.rmtree(d)
             raise SystemExit(f"patch {m['patch']} does not apply")
         return d
-    edits = m.get("edits") or [m]
+    edits = m["edits"] if "edits" in m else [m]
     for e in edits:
         path = os.path.join(d, e["file"])
         src = open(path).read()
